@@ -90,21 +90,48 @@ def run(ctx):
     for hname in ("eth_estimateGas", "eth_estimateGasMany"):
         hs = [h for (n, ms, hh, c) in roles.rpc_methods(F) if n == hname for h in hh]
         for h in hs:
-            bodies = [d for d in F.descendants(h) if any((c.method or "") in ("read_contract", "read_contract_multi") for c in d.calls())]
+            # the handler's own async body (not the body of a private async helper it awaits - that one is found from it below)
+            bodies = [d for d in F.descendants(h) if d.j.get("root") == h and any((c.method or "") in ("read_contract", "read_contract_multi") for c in d.calls())]
             R.ob(len(bodies) == 1, "ANCHOR", F.fns[h].where(), "ANCHOR|%s" % hname, "%s body not found" % hname)
             for d in bodies:
                 _bisection(R, F, F.inlined(d), hname)     # private helpers of the server (block-number parsing, height re-check) read in place
     return R
 
 
-def _bisection(R, F, d, hname):
-    from unord import Unord
-    loops = Unord(F, None).natural_loops(d)
-    # the loop guard: lower + GAS_PER_BYTE - upper < 0  <=>  lower - upper + 12000 + 1 <= 0
+def _find_guard(d):
     guard = None
     for (b, s, fm, line) in edge_forms(d):
         if fm.rel == "<=" and any("GAS_PER_BYTE" in c for c in fm.lin.consts) and len(fm.lin.terms) == 2 and fm.lin.k == 12001:
             guard = (b, s, fm, line)
+    return guard
+
+
+def _awaited_private(F, d):
+    """[(the poll call in d, the awaited body)] for private async helpers of the same type that d awaits: `self.helper(..).await`
+    polls the helper's coroutine body, which the facts resolve as the callee of the poll"""
+    from facts import is_private_helper
+    out = []
+    for c in d.calls():
+        g = F.fns.get(c.target_id) if c.target_id else None
+        if g is None or g.kind != "coroutine" or d.is_cleanup(c.bb) or g.id == d.id:
+            continue
+        root = F.fns.get(g.j.get("root")) or g
+        if is_private_helper(root):
+            out.append((c, F.inlined(g)))
+    return out
+
+
+def _bisection(R, F, d, hname):
+    from unord import Unord
+    # the loop guard: lower + GAS_PER_BYTE - upper < 0  <=>  lower - upper + 12000 + 1 <= 0
+    guard = _find_guard(d)
+    if guard is None:
+        # the search loop moved into a private async helper (`self.bisect_gas_limit(..).await`): the loop rules are read in the
+        # helper's body, the confirmation / re-check / returned-figure rules in the handler, after the await
+        for (pc, hv) in _awaited_private(F, d):
+            if _find_guard(hv) is not None:
+                return _bisection_split(R, F, d, pc, hv, hname)
+    loops = Unord(F, None).natural_loops(d)
     R.ob(guard is not None, "GUARD", d.where(), "GUARD|%s|loop" % hname, "%s: bisection does not continue while `lower + GAS_PER_BYTE < upper`" % hname,
          sample={"rule": "GUARD", "fn": hname, "row": "lower - upper + 12000 + 1 <= 0 => continue"})
     if guard is None:
@@ -139,6 +166,40 @@ def _bisection(R, F, d, hname):
                     mids += 1
     R.ob(mids >= 1, "GUARD", d.where(), "GUARD|%s|midpoint" % hname, "the probe is not the midpoint (lower + upper) / 2", sample={"rule": "GUARD", "fn": hname, "row": "mid = (lower+upper)/2"})
     # height re-check precedes Ok return: a second parse_block_number after the final confirmation, compared with the first
+    pb = [c for c in d.calls() if (c.method or "") == "parse_block_number" and not d.is_cleanup(c.bb)]
+    R.ob(len(pb) >= 2 and any(d.dominates(a.bb, c.bb) and a.bb != c.bb for a in after for c in pb), "DOM-order", d.where(), "DOM-order|%s|height-recheck" % hname,
+         "%s does not re-read the block height after the final confirmation" % hname, sample={"rule": "DOM-order", "fn": hname, "step": "height re-check after confirmation"})
+
+
+def _bisection_split(R, F, d, pc, hv, hname):
+    from unord import Unord
+    loops = Unord(F, None).natural_loops(hv)
+    guard = _find_guard(hv)
+    R.ob(guard is not None, "GUARD", hv.where(), "GUARD|%s|loop" % hname, "%s: bisection does not continue while `lower + GAS_PER_BYTE < upper`" % hname,
+         sample={"rule": "GUARD", "fn": hname, "row": "lower - upper + 12000 + 1 <= 0 => continue", "in": hv.name[-40:]})
+    b = guard[0]
+    head = [h for h, body in loops.items() if b in body]
+    R.ob(bool(head), "GUARD", hv.where(), "GUARD|%s|loop-is-loop" % hname, "bisection guard is not inside a loop")
+    if not head:
+        return
+    body = loops[min(head, key=lambda h: len(loops[h]))]
+    rc_h = [c for c in hv.calls() if (c.method or "") in ("read_contract", "read_contract_multi") and not hv.is_cleanup(c.bb)]
+    inside = [c for c in rc_h if c.bb in body]
+    rc = [c for c in d.calls() if (c.method or "") in ("read_contract", "read_contract_multi") and not d.is_cleanup(c.bb)]
+    after = [c for c in rc if d.dominates(pc.bb, c.bb) and c.bb != pc.bb]
+    R.ob(bool(inside), "DOM", hv.where(), "DOM|%s|probe" % hname, "no simulation inside the bisection loop")
+    R.ob(bool(after), "DOM-all", d.where(), "DOM-all|%s|final-confirmation" % hname, "%s returns an estimate without a final confirmation run after the bisection" % hname,
+         sample={"rule": "DOM-all", "fn": hname, "step": "final read_contract(estimate) after the awaited search"})
+    _returned_is_confirmed(R, F, d, hname, after)
+    mids = 0
+    for bi in body:
+        for s in hv.blocks[bi]["stmts"]:
+            if s["k"] == "assign" and s["rv"]["k"] == "bin" and s["rv"]["op"].startswith("Div"):
+                from terms import rvalue_origin
+                t = rvalue_origin(hv, s["rv"], 0, frozenset(), 12)
+                if t[3][0] == "const" and t[3][1] == 2:
+                    mids += 1
+    R.ob(mids >= 1, "GUARD", hv.where(), "GUARD|%s|midpoint" % hname, "the probe is not the midpoint (lower + upper) / 2", sample={"rule": "GUARD", "fn": hname, "row": "mid = (lower+upper)/2"})
     pb = [c for c in d.calls() if (c.method or "") == "parse_block_number" and not d.is_cleanup(c.bb)]
     R.ob(len(pb) >= 2 and any(d.dominates(a.bb, c.bb) and a.bb != c.bb for a in after for c in pb), "DOM-order", d.where(), "DOM-order|%s|height-recheck" % hname,
          "%s does not re-read the block height after the final confirmation" % hname, sample={"rule": "DOM-order", "fn": hname, "step": "height re-check after confirmation"})
